@@ -12,7 +12,8 @@ kept, `ub := max`).  As for the cache-less solver (`Proofs/SeqInvDedup.lean`, `P
 * `CInvC.of_coalesce`: the invariant `CInvC` is stable under coalescing — a member `c` of the multiset is dominated
   (`Dom`) by an entry `s` of the coalescing, which has the same depth, a potential `≥` (`optOf_dom`), a bound `≥`, and is
   not refused by the cache when `c` is not (`prunM_dom`: `prunM` is antitone in the value);
-* `processC_inv_any`: `processC_inv` for both fringes, `hPhi` discharged (`optOf H` does not read the bound).
+* `processC_inv_any`: `processC_inv` for both fringes.  Like `processC_inv` it has **no hypothesis on the pop order**
+  (`N` is any element of the fringe).
 
 Core Lean only. -/
 set_option linter.unusedSectionVars false
@@ -28,7 +29,7 @@ def stateAfterD (dedup : Bool) (st : SeqSt S) (T : CView S) (N : SubP S) (r x : 
 theorem stateAfterD_false (st : SeqSt S) (T : CView S) (N : SubP S) (r x : DDOut S) :
     stateAfterD false st T N r x = stateAfter st T N r x := rfl
 
-/-- `optOf H` does not read the bound (the `hPhi` of `processC_inv`) -/
+/-- `optOf H` does not read the bound -/
 theorem optOf_ub (H : Nat → S → EInt) (c : SubP S) (u : Int) : optOf H { c with ub := u } = optOf H c := rfl
 
 /-- `optOf H` is `PhiMono` -/
@@ -71,9 +72,9 @@ theorem processD_rel (st : SeqSt S) (T : CView S) (N : SubP S) (r x : DDOut S) :
       · exact ⟨rfl, rfl, Coalesces.refl _⟩
       · split
         · exact ⟨rfl, rfl, Coalesces.refl _⟩
-        · obtain ⟨t1, t2, _, _, _, _⟩ := enqueue_true_spec ((st.updateBest r).updateBest x) N.ub x.cutset
-          obtain ⟨e1, e2, _, _, _⟩ := enqueue_false_spec ((st.updateBest r).updateBest x) N.ub x.cutset
-          exact ⟨t1.trans e1.symm, t2.trans e2.symm, enqueue_true_coalesces_false _ _ _⟩
+        · obtain ⟨t1, t2, _, _, _, _⟩ := enqueue_true_spec ((st.updateBest r).updateBest x) x.cutset
+          obtain ⟨e1, e2, _, _, _⟩ := enqueue_false_spec ((st.updateBest r).updateBest x) x.cutset
+          exact ⟨t1.trans e1.symm, t2.trans e2.symm, enqueue_true_coalesces_false _ _⟩
 
 section
 variable (H : Nat → S → EInt) (opt : Int) (Sol : List Dec → Int → Prop)
@@ -115,24 +116,22 @@ theorem processC_inv_dedup
     (st : SeqSt S) (T : CView S) (N : SubP S) (r : DDOut S) (rups : List (S × Nat × Int × Bool))
     (x : DDOut S) (xups : List (S × Nat × Int × Bool))
     (hinv : CInvC H opt Sol Rg (N :: st.fringe) T st.bestLb st.bestSol)
-    (hbf : ∀ c ∈ st.fringe, c.ub ≤ N.ub)
     (hrs : ∀ w, r.bestExact = some w → ∃ p, r.bestExactSol = some p ∧ Sol p w ∧ w ≤ opt)
     (hr : r.isExact = true → CompC H opt Sol Rg N st.bestLb T r rups (st.updateBest r).bestLb)
     (hrups : r.isExact = false → rups = [])
     (hx : r.isExact = false → CompC H opt Sol Rg N (st.updateBest r).bestLb T x xups ((st.updateBest r).updateBest x).bestLb) :
     CInvC H opt Sol Rg (stateAfterD true st T N r x).fringe (viewAfter st T N r rups xups)
       (stateAfterD true st T N r x).bestLb (stateAfterD true st T N r x).bestSol := by
-  have h := processC_inv H opt Sol Rg (optOf_ub H) st T N r rups x xups hinv hbf hrs hr hrups hx
+  have h := processC_inv H opt Sol Rg st T N r rups x xups hinv hrs hr hrups hx
   obtain ⟨e1, e2, hco⟩ := processD_rel st T N r x
   rw [e1, e2]
   exact CInvC.of_coalesce H opt Sol Rg h hco
 
-/-- `processC_inv` for both fringes -/
+/-- `processC_inv` for both fringes; `N` is any element of the fringe (no hypothesis on the pop order) -/
 theorem processC_inv_any (dedup : Bool)
     (st : SeqSt S) (T : CView S) (N : SubP S) (r : DDOut S) (rups : List (S × Nat × Int × Bool))
     (x : DDOut S) (xups : List (S × Nat × Int × Bool))
     (hinv : CInvC H opt Sol Rg (N :: st.fringe) T st.bestLb st.bestSol)
-    (hbf : ∀ c ∈ st.fringe, c.ub ≤ N.ub)
     (hrs : ∀ w, r.bestExact = some w → ∃ p, r.bestExactSol = some p ∧ Sol p w ∧ w ≤ opt)
     (hr : r.isExact = true → CompC H opt Sol Rg N st.bestLb T r rups (st.updateBest r).bestLb)
     (hrups : r.isExact = false → rups = [])
@@ -140,8 +139,8 @@ theorem processC_inv_any (dedup : Bool)
     CInvC H opt Sol Rg (stateAfterD dedup st T N r x).fringe (viewAfter st T N r rups xups)
       (stateAfterD dedup st T N r x).bestLb (stateAfterD dedup st T N r x).bestSol := by
   cases dedup
-  · exact processC_inv H opt Sol Rg (optOf_ub H) st T N r rups x xups hinv hbf hrs hr hrups hx
-  · exact processC_inv_dedup H opt Sol Rg st T N r rups x xups hinv hbf hrs hr hrups hx
+  · exact processC_inv H opt Sol Rg st T N r rups x xups hinv hrs hr hrups hx
+  · exact processC_inv_dedup H opt Sol Rg st T N r rups x xups hinv hrs hr hrups hx
 
 end
 end Ddo.C09
